@@ -128,6 +128,8 @@ class Ref:
                     return ("Q", Fraction(trunc_frac(v[1] * self.scale()), self.scale())), "X"
                 return UNK, "?"
             if R[pick][0] == "I":
+                if kt == kf == "B":
+                    return R[pick], "B"      # a selection between two booleans is a boolean (`LinCombBool(ret, False)`; a public 0/1 condition returns the branch itself)
                 return R[pick], ("L" if (kt, kf) != ("I", "I") or K[c] != "I" else "I")
             return UNK, "?"
         if op == "list":
@@ -265,8 +267,16 @@ class Ref:
             if y == 0: return RAISE, "?"
             return Q(x - y * floor_frac(x / y))
         if op in ("lt", "le", "eq", "ne", "gt", "ge"):
+            # the order of the represented numbers, whichever operand is the fixed-point one and whichever side it is on
             v = {"lt": x < y, "le": x <= y, "eq": x == y, "ne": x != y, "gt": x > y, "ge": x >= y}[op]
             return ("I", int(v)), "B"
+        if op in ("lshift", "rshift") and tx == "fx" and ty == "int" and kb == "I":
+            # a fixed-point value shifted by a plain int: a negative count raises, as for plain Python ints;
+            # << multiplies the number by 2^n (exact), >> divides it by 2^n flooring to the grid 2^-r
+            if y < 0: return RAISE, "?"
+            if y > 4096: return UNK, "?"
+            if op == "lshift": return Q(x * (1 << y))
+            return Q(Fraction(floor_frac(x * s / (1 << y)), s))
         return UNK, "?"
 
     def unop(self, op, a):
